@@ -50,6 +50,10 @@ def cases(draw):
         val = draw(st.sampled_from(NS_DICTS))
     elif opt == "shapes_namespace":
         val = draw(st.sampled_from(["http://my.shapes/ns/", "http://ex.org/shapes#"]))
+    if opt == "file_output" and draw(st.integers(0, 7)) == 0:
+        # outputs above 5 000 / 10 000 lines cross the serializer's buffer flush once / twice
+        g = {"big": draw(st.sampled_from([800, 1500]))}
+        target = {"mode": "all"}
     return {"g": g, "cfg": cfg, "target": target, "thr": thr, "option": opt, "value": val}
 
 
@@ -89,6 +93,9 @@ def diff_struct(a, b):
 
 
 def check(case):
+    if "big" in case["g"]:
+        from . import c18
+        case = dict(case, g=c18.big_graph(case["g"]["big"]))
     kw, triples = common.base_kwargs(case)
     cfg = case["cfg"]
     inst_prop = case["g"]["inst_prop"]
@@ -124,8 +131,14 @@ def check(case):
         return discard("crash:" + c1.bucket)
     try:
         a = oracle.read_canon(out1, inst_prop)
+    except oracle.shexc.ShExCError as e:
+        return discard("unparsable-output")
+    try:
         b = oracle.read_canon(out2, inst_prop)
     except oracle.shexc.ShExCError as e:
+        if opt == "file_output":
+            return violation("the file written is not the text returned as string: the string parses, the file does not (%s); "
+                             "%d lines in the file, %d in the string" % (e, out2.count("\n"), out1.count("\n")), {"opt:" + opt}, True)
         return discard("unparsable-output")
     if "__dup_labels__" in a or "__dup_labels__" in b:
         return discard("label-collision")
@@ -144,7 +157,9 @@ def check(case):
     if opt in ("disable_comments", "decimals", "instances_report_mode", "namespaces_dict", "shapes_namespace", "file_output"):
         viol = diff_struct(sa, sb)
         if opt == "file_output" and out1 != out2:
-            viol.append("file text differs from string text")
+            viol.append("file text differs from string text (%d vs %d lines)" % (out2.count("\n"), out1.count("\n")))
+        if opt == "file_output" and out1.count("\n") > 5000:
+            labels.add("file-over-5000-lines")
         nt = any(len(v) >= 2 for v in sa.values())
         if opt == "decimals":
             cfg2 = dict(cfg)
